@@ -1,7 +1,7 @@
 (* C04 — emptiness and determinism queries. *)
 From Coq Require Import List NArith.
 Import ListNotations.
-From PFL Require Import Base.ListSet Spec.Enfa Model.Enfa Model.EnfaOps Proofs.EnfaAccepts Proofs.EnfaEmpty Proofs.EnfaClasses.
+From PFL Require Import Base.ListSet Base.Closure Spec.Enfa Model.Enfa Model.EnfaOps Model.EnfaWords Proofs.EnfaAccepts Proofs.EnfaEmpty Proofs.EnfaClasses Proofs.EnfaWords.
 
 Theorem C04_is_empty : forall (Q : Type) (E : EqDec Q) (A : enfa Q),
   is_empty A = true <-> forall w, ~ Lang A w.
@@ -16,3 +16,18 @@ Theorem C04_is_deterministic : forall (Q : Type) (E : EqDec Q) (A : enfa Q),
    (forall q r, In q (e_states A) -> epath A [q] r -> r = q)).
 Proof. exact (@is_deterministic_spec). Qed.
 Print Assumptions C04_is_deterministic.
+
+(* no state reachable from a start state (through any edges) lies on a cycle *)
+Theorem C04_is_acyclic : forall (Q : Type) (E : EqDec Q) (A : enfa Q),
+  is_acyclic A = true <->
+  forall q, reach (all_succs A) (e_starts A) q -> ~ exists r, In r (all_succs A q) /\ reach (all_succs A) [r] q.
+Proof. exact (@is_acyclic_spec). Qed.
+Print Assumptions C04_is_acyclic.
+
+(* get_accepted_words(n): every accepted word of length at most n (any length for n = None), exactly once, nothing else;
+   [fuel] bounds the exploration (2^fuel steps) and the statement excludes the out-of-fuel result *)
+Theorem C04_accepted_words : forall (Q : Type) (E : EqDec Q) (A : enfa Q) (n : option nat) (fuel : nat) (ws : list (list N)),
+  accepted_words fuel A n = Some ws ->
+  NoDup ws /\ forall w, In w ws <-> (Lang A w /\ match n with Some k => length w <= k | None => True end).
+Proof. exact (@accepted_words_spec). Qed.
+Print Assumptions C04_accepted_words.
